@@ -591,7 +591,7 @@ class NoName:
 
 
 CARRIERS = ["tempfile", "fdopen", "pipe", "spooled_mem", "spooled_disk", "noname", "bytesname", "fd_open", "unbuffered",
-            "bytesio"]
+            "bytesio", "zlibfile_w", "gzipfile_w", "zlibfile_r", "gzipfile_r"]
 
 
 class StreamClosed(Exception):
@@ -673,6 +673,28 @@ def carrier_roundtrip(obj, form, proto, carrier, wd, out):
             back = joblib.load(f)
             must_be_open(f, "load", out)
             return back
+    if carrier in ("zlibfile_w", "gzipfile_w", "zlibfile_r", "gzipfile_r"):
+        # joblib's OWN file objects handed to dump / load by the caller (no peek(): the sniffing does read(5), seek(0))
+        cls = compressor.BinaryZlibFile if carrier.startswith("zlib") else compressor.BinaryGzipFile
+        if carrier.endswith("_w"):                  # a plain dump written THROUGH an open BinaryZlib/GzipFile
+            fz = cls(path, "wb", compresslevel=3)
+            try:
+                joblib.dump(obj, fz, compress=0, protocol=proto)
+                must_be_open(fz, "dump", out)
+            finally:
+                fz.close()
+        else:                                       # an ordinary compressed dump, WRAPPED by the caller for reading
+            joblib.dump(obj, path, compress=("zlib" if carrier.startswith("zlib") else "gzip", 3), protocol=proto)
+        out["head"] = open(path, "rb").read(8).hex()
+        out["form_used"] = "0 through the file object" if carrier.endswith("_w") else "codec of the file object"
+        fz = cls(path, "rb")
+        try:
+            out["name_type"] = type(getattr(fz, "name", None)).__name__
+            back = joblib.load(fz)
+            must_be_open(fz, "load", out)
+            return back
+        finally:
+            fz.close()
     if carrier == "unbuffered":                     # io.FileIO: no peek()
         with open(path, "wb", buffering=0) as f:
             joblib.dump(obj, f, compress=form, protocol=proto)
